@@ -972,8 +972,15 @@ fn run_chain(ctx: &mut Ctx, r: &mut Rng, cc: &ChainCfg, epochs: &[Vec<Op>]) {
             ctx.rep.violation(class, "live store (after a recovery) answers differently from the writes issued", json!({"script": script, "epoch": ei, "live": live_dur, "expected": spec_image(&spec)}));
         }
         for g in live.iter().filter(|s| s.starts_with('!')) {
-            ctx.rep.hit("observe.ghost_key_in_scan");
-            ctx.rep.observe(json!({"what": "scan lists a key that get rejects (non-emb key with _embedding, deleted)", "key_hex": g, "script": script}));
+            let key = String::from_utf8(nverif::unhex(&g[1..])).unwrap_or_default();
+            if key.starts_with("emb:") {
+                ctx.rep.hit("observe.ghost_key_in_scan");
+                ctx.rep.observe(json!({"what": "scan lists an emb: key that get rejects", "key_hex": g, "script": script}));
+            } else {
+                // only emb: keys live in the entity index: a key of any other class that scan lists is readable
+                ctx.rep.hit(&format!("violation.{NON_EMB_GHOST}"));
+                ctx.rep.violation(NON_EMB_GHOST, "scan of the live store lists a non-emb: key that get rejects (entity-index entry left behind by a delete)", json!({"script": script, "epoch": ei, "key": key, "live": live}));
+            }
         }
 
         // ---- crash
@@ -1211,6 +1218,147 @@ fn stream_frames(ctx: &mut Ctx, r: &mut Rng, n: usize) {
     }
 }
 
+/// class of the defect repaired by "only `emb:` keys get an entity-index entry" (put_durable / apply_wal_entry)
+const NON_EMB_GHOST: &str = "tensor_store.slab_router.put_durable/non_emb_key_with_vector_stays_in_scan_after_delete";
+
+/// the complete records of a log file, decoded by the real bitcode
+fn file_entries(bytes: &[u8]) -> Vec<String> {
+    let mut v = Vec::new();
+    let mut pos = 0;
+    while pos + 8 <= bytes.len() {
+        let l = u32::from_le_bytes([bytes[pos], bytes[pos + 1], bytes[pos + 2], bytes[pos + 3]]) as usize;
+        if pos + 8 + l > bytes.len() {
+            break;
+        }
+        v.push(match bitcode::deserialize::<WalEntry>(&bytes[pos + 8..pos + 8 + l]) {
+            Ok(e) => entry_str(&e),
+            Err(_) => "undecodable".into(),
+        });
+        pos += 8 + l;
+    }
+    v
+}
+
+/// Regression case of the FIXED class `NON_EMB_GHOST`: durable put of a non-emb: key whose value carries
+/// `_embedding`, durable delete, then scan / exists / get on the live store and on the store recovered from
+/// the whole log. Oracle (on the implementation's own answers): the key is gone from both stores — not
+/// listed by scan (empty prefix and the key as prefix), exists false, get rejected — and the two stores have
+/// the same scan+get image. Correspondence: records logged, live image, recovered image vs the model.
+fn probe_non_emb_vector_key(ctx: &mut Ctx) {
+    let stream = "probe_non_emb_vector_key";
+    // (key, dimension of its vector, other keys around it)
+    for (key, dim, around) in [("a", 384usize, false), ("a", 3, true), ("user:1", 384, true), ("node:1", 2, true), ("table:t", 0, false), ("emb", 384, true), ("_blob:meta:z", 3, false)] {
+        let dir = ctx.fresh_dir();
+        let wal_path = dir.join("w.wal");
+        let cfg = cfg_for(SyncMode::Immediate, None);
+        let store = match TensorStore::open_durable(&wal_path, cfg.clone()) {
+            Ok(s) => s,
+            Err(e) => {
+                ctx.rep.note(&format!("open_durable failed: {e}"));
+                return;
+            },
+        };
+        ctx.m.ask("open immediate 0");
+        let mut ops: Vec<Op> = Vec::new();
+        if around {
+            ops.push(Op::Put("emb:s".into(), tdv("s", 2.0, 384)));
+        }
+        ops.push(Op::Put(key.into(), tdv("one", 1.0, dim)));
+        if around {
+            ops.push(Op::Put("emb:t".into(), tdv("t", 3.0, 384)));
+            ops.push(Op::Put("b".into(), td("plain")));
+        }
+        ops.push(Op::Del(key.into()));
+        let script = json!({"mode": "immediate", "ops": ops.iter().map(op_str).collect::<Vec<_>>(), "then": "scan / exists / get, delete again, recover from the whole log"});
+        let mut model_records: Vec<String> = Vec::new();
+        let run = |ctx: &mut Ctx, op: &Op, model_records: &mut Vec<String>| -> (String, String) {
+            let (imp, line) = match op {
+                Op::Put(k, d) => {
+                    let c = canon(d);
+                    (if store.put_durable(k.clone(), d.clone()).is_ok() { "ok" } else { "err" }, format!("put {} {} {}", hex(k.as_bytes()), hex(&c.0), ob_str(&c.1)))
+                },
+                Op::Del(k) => (if store.delete_durable(k).is_ok() { "ok" } else { "notfound" }, format!("del {}", hex(k.as_bytes()))),
+                _ => unreachable!(),
+            };
+            let ans = ctx.m.ask(&line);
+            let short = ans.split(" synced=").next().unwrap_or("").to_string();
+            let mut it = short.splitn(2, ' ');
+            let res = it.next().unwrap_or("").to_string();
+            for e in it.next().unwrap_or("-").split(',').filter(|x| *x != "-") {
+                model_records.push(e.to_string());
+            }
+            (imp.to_string(), res)
+        };
+        let mut imp_results = Vec::new();
+        let mut model_results = Vec::new();
+        for op in &ops {
+            let (i, m) = run(ctx, op, &mut model_records);
+            imp_results.push(i);
+            model_results.push(m);
+        }
+        // ---- the live store after the delete
+        let listed = store.scan("").iter().any(|k| k == key);
+        let listed_by_prefix = store.scan(key).iter().any(|k| k == key);
+        let exists = store.exists(key);
+        let readable = store.get(key).is_ok();
+        let live = image_of(&store);
+        let mlive = canon_model_image(&format!("ok {}", ctx.m.ask("image")));
+        // deleting it once more: NotFound (and one more MetadataDelete record: delete_durable logs first)
+        let (i, m) = run(ctx, &Op::Del(key.into()), &mut model_records);
+        imp_results.push(i.clone());
+        model_results.push(m);
+        let second_delete_notfound = i == "notfound";
+        let live2 = image_of(&store);
+        drop(store);
+        // ---- records
+        let file = std::fs::read(&wal_path).unwrap_or_default();
+        let recs = file_entries(&file);
+        for e in &recs {
+            ctx.rep.hit(&format!("record.{}", e.split(':').next().unwrap_or("?")));
+        }
+        ctx.rep.case(&format!("{stream}.records"), Some(&format!("{key}|{dim}|{around}")));
+        ctx.rep.compare(&format!("{stream}.records"), || json!({"script": script}), &format!("{} {}", imp_results.join(","), recs.join(",")), &format!("{} {}", model_results.join(","), model_records.join(",")));
+        let eset_count_wrong = recs.iter().filter(|e| e.starts_with("eset:")).count() != if around { 2 } else { 0 };
+        ctx.rep.case(&format!("{stream}.live_image"), Some(&format!("{key}|{dim}|{around}")));
+        ctx.rep.compare(&format!("{stream}.live_image"), || json!({"script": script}), &fmt_image(&live), &mlive);
+        // ---- recover from the whole log
+        ctx.bind_file(&file);
+        let rec = TensorStore::recover(&wal_path, &cfg, None);
+        let (rec_img, r_listed, r_exists, r_readable) = match &rec {
+            Ok(st) => (Some(image_of(st)), st.scan("").iter().any(|k| k == key) || st.scan(key).iter().any(|k| k == key), st.exists(key), st.get(key).is_ok()),
+            Err(_) => (None, false, false, false),
+        };
+        drop(rec);
+        let imp_rec = match &rec_img {
+            Some(i) => fmt_image(i),
+            None => "err".to_string(),
+        };
+        let mrec = canon_model_image(&ctx.m.ask(&format!("recover none {}", hex(&file))));
+        ctx.rep.case(&format!("{stream}.recover"), Some(&format!("{key}|{dim}|{around}|{}", file.len())));
+        ctx.rep.compare(&format!("{stream}.recover"), || json!({"script": script, "wal_len": file.len()}), &imp_rec, &mrec);
+        // ---- oracle
+        let mut wrong: Vec<&str> = Vec::new();
+        if listed { wrong.push("live scan(\"\") lists the deleted key"); }
+        if listed_by_prefix { wrong.push("live scan(key) lists the deleted key"); }
+        if exists { wrong.push("live exists is true"); }
+        if readable { wrong.push("live get succeeds"); }
+        if !second_delete_notfound { wrong.push("second delete_durable did not answer NotFound"); }
+        if live != live2 { wrong.push("a delete of the absent key changed the live image"); }
+        if eset_count_wrong { wrong.push("EmbeddingSet records: expected one per emb: put that carries a vector, none for the non-emb: key"); }
+        if r_listed { wrong.push("recovered scan lists the deleted key"); }
+        if r_exists { wrong.push("recovered exists is true"); }
+        if r_readable { wrong.push("recovered get succeeds"); }
+        if rec_img.as_ref() != Some(&live) { wrong.push("live and recovered stores have different scan+get images"); }
+        if wrong.is_empty() {
+            ctx.rep.hit("oracle.non_emb_vector_key_gone_after_delete");
+        } else {
+            ctx.rep.hit(&format!("violation.{NON_EMB_GHOST}"));
+            ctx.rep.violation(NON_EMB_GHOST, &wrong.join("; "), json!({"script": script, "live": live, "recovered": rec_img, "records": recs}));
+        }
+        let _ = std::fs::remove_dir_all(&dir);
+    }
+}
+
 fn td(s: &str) -> TensorData {
     let mut d = TensorData::new();
     d.set("f", TensorValue::Scalar(ScalarValue::String(s.to_string())));
@@ -1297,8 +1445,9 @@ fn main() {
         let cc = ChainCfg { stream: "probe_torn_put", mode: SyncMode::Immediate, max_size: None, every_byte: false, random_cuts: 0, resume_full: true, compare_model: true };
         let eps = vec![vec![Op::Put("emb:a".into(), tdv("one", 1.0, 384)), Op::Put("emb:a".into(), tdv("two", 2.0, 384))]];
         run_chain(&mut ctx, &mut r, &cc, &eps);
-        // 6b9ec7ce recover/logged_entity_id_belongs_to_another_key: a non-emb: key that carried a vector keeps
-        // its index entry on delete (live) but loses it on replay, so the writer's ids and replay's differ
+        // 6b9ec7ce recover/logged_entity_id_belongs_to_another_key: a non-emb: key that carried a vector kept
+        // its index entry on delete (live) but lost it on replay, so the writer's ids and replay's differed
+        // (since "only emb: keys get an entity-index entry" such a key has no id at all; the case stays)
         let cc = ChainCfg { stream: "probe_index_divergence", mode: SyncMode::Immediate, max_size: None, every_byte: false, random_cuts: 0, resume_full: true, compare_model: true };
         let eps = vec![vec![
             Op::Put("a".into(), tdv("one", 1.0, 384)),
@@ -1324,6 +1473,45 @@ fn main() {
             vec![Op::Put("z".into(), td("z"))],
         ];
         run_chain(&mut ctx, &mut r, &cc, &eps);
+        // "only emb: keys get an entity-index entry" (put_durable / apply_wal_entry):
+        // put_durable/non_emb_key_with_vector_stays_in_scan_after_delete. Directed oracle first, then the same
+        // shape through crash chains (every cut; checkpoints; Batched, where the acknowledged prefix depends
+        // on the number of records each put logs)
+        probe_non_emb_vector_key(&mut ctx);
+        let eps = vec![
+            vec![
+                Op::Put("a".into(), tdv("one", 1.0, 384)),
+                Op::Del("a".into()),
+                Op::Put("a".into(), tdv("two", 2.0, 3)),
+                Op::Put("emb:y".into(), tdv("y", 3.0, 384)),
+                Op::Del("a".into()),
+                Op::Put("user:1".into(), tdv("u", 4.0, 2)),
+            ],
+            vec![Op::Del("user:1".into()), Op::Put("emb:z".into(), tdv("z", 5.0, 384)), Op::Put("a".into(), tdv("three", 6.0, 384)), Op::Del("emb:y".into())],
+            vec![Op::Del("a".into()), Op::Put("b".into(), td("b"))],
+        ];
+        let cc = ChainCfg { stream: "probe_non_emb_vector_chain", mode: SyncMode::Immediate, max_size: None, every_byte: false, random_cuts: 4, resume_full: true, compare_model: true };
+        run_chain(&mut ctx, &mut r, &cc, &eps);
+        let eps = vec![
+            vec![
+                Op::Put("a".into(), tdv("one", 1.0, 3)),
+                Op::Put("user:1".into(), tdv("u", 4.0, 2)),
+                Op::Put("emb:y".into(), tdv("y", 3.0, 3)),
+                Op::Del("a".into()),
+                Op::Put("b".into(), td("b")),
+                Op::Sync,
+                Op::Put("a".into(), tdv("two", 2.0, 3)),
+                Op::Ckpt,
+                Op::Del("user:1".into()),
+                Op::Put("node:1".into(), tdv("n", 7.0, 3)),
+                Op::Del("a".into()),
+            ],
+            vec![Op::Put("a".into(), tdv("three", 6.0, 3)), Op::Del("node:1".into()), Op::Put("emb:z".into(), tdv("z", 5.0, 3)), Op::Ckpt, Op::Del("a".into())],
+        ];
+        for mode in [SyncMode::Batched { max_entries: 2 }, SyncMode::Batched { max_entries: 3 }, SyncMode::Manual] {
+            let cc = ChainCfg { stream: "probe_non_emb_vector_chain", mode, max_size: None, every_byte: false, random_cuts: 4, resume_full: false, compare_model: true };
+            run_chain(&mut ctx, &mut r, &cc, &eps);
+        }
         // 384-dim embeddings (tensor-train compressed in the snapshot: within tolerance, not bit-exact)
         // through checkpoints, overwritten and deleted afterwards
         let cc = ChainCfg { stream: "probe_ckpt_emb384", mode: SyncMode::Immediate, max_size: None, every_byte: false, random_cuts: 0, resume_full: true, compare_model: true };
